@@ -14,6 +14,7 @@
  *        LP <probname> MIN|MAX <ncols> <nrows>
  *        COL <name> <obj> <lo> <up> <int>
  *        ROW <name> <L|G|E|R> <rhs> <range> <k> (<colindex> <coef>)*k
+ *   LOADMIX <h> <k>      same block; the rows are added after the first k columns, the other columns after the rows
  *   WRITE <h> <file> LP|MPS     mpq_QSwrite_prob   -> "WRITE <rv> <nmsg>" then "W <enc log message>"*
  *   READ <h> <file> LP|MPS      mpq_QSget_prob with error memory -> "READ OK|FAIL <nerr> <nwarn>" then "E <type> <line> <enc desc>"*
  *   READP <h> <file> LP|MPS     mpq_QSread_prob (the plain public entry)
@@ -22,6 +23,8 @@
  *                                | "TRYREAD CRASH <how> <enc first sanitizer line>" | "TRYREAD TIMEOUT"
  *   TRYBASIS <h> <file>         C11: child: mpq_QSread_basis + mpq_QSread_and_load_basis on problem h
  *   DUMP <h> | DUMPO <h>        by names, sorted by name | in index order
+ *   DUMPC <h>                   by columns in the storage order of the matrix: "PC <sense> <ncols> <nrows> <probname> <objname|-> <intmarker?> <rangeval?>",
+ *                               "CC <name> <obj> <lo> <up> <int> <k> (<rowname> <coef>)*k", "RR <name> <sense> <rhs> <range>"
  *   SOLVE <h>                   QSexact_solver -> "SOLVE <rv> <status> <objval|->" ; "X ..." ; "PI ..."
  *   OPT <h> PRIMAL|DUAL         mpq_QSopt_primal/dual (uses/creates the problem's own basis)
  *   GETBASIS <h>                "BASIS <cstat> <rstat>"
@@ -115,70 +118,94 @@ static void msgs_clear (void)
 }
 
 /* ---- block loader with names / integer marks ------------------------------ */
-static mpq_QSdata *load_block (FILE * in)
+/* kfirst < 0: all columns first, then the rows (LOAD).  kfirst >= 0 (LOADMIX): the first kfirst columns, then the
+ * rows with their entries in those columns, then the remaining columns with their entries (mpq_QSadd_col): the
+ * structural columns added last lie behind the logicals, structmap is not the identity. */
+static mpq_QSdata *load_block (FILE * in, int kfirst)
 {
 	int ncols, nrows, i, j, rv = 0, anyint = 0;
-	char *ints;
+	char *ints, **cname, **rname, *rsense;
+	int *rk, **rind;
+	mpq_t *cobj, *clo, *cup, *rrhs, *rrange, **rval;
 	mpq_QSdata *p;
-	mpq_t a, b, c;
 	if (!qsx_next (in) || qsx_ntok < 5 || strcmp (qsx_tok[0], "LP")) qsx_die ("LP header expected");
 	ncols = atoi (qsx_tok[3]);
 	nrows = atoi (qsx_tok[4]);
 	dec (qsx_tok[1]);
 	p = mpq_QScreate_prob (qsx_tok[1], strcmp (qsx_tok[2], "MAX") ? QS_MIN : QS_MAX);
 	if (!p) return NULL;
+	if (kfirst < 0 || kfirst > ncols) kfirst = ncols;
 	ints = (char *) calloc (ncols + 1, 1);
-	mpq_init (a); mpq_init (b); mpq_init (c);
+	cname = (char **) calloc (ncols + 1, sizeof (char *));
+	rname = (char **) calloc (nrows + 1, sizeof (char *));
+	rsense = (char *) calloc (nrows + 1, 1);
+	rk = (int *) calloc (nrows + 1, sizeof (int));
+	rind = (int **) calloc (nrows + 1, sizeof (int *));
+	rval = (mpq_t **) calloc (nrows + 1, sizeof (mpq_t *));
+	cobj = mpq_EGlpNumAllocArray (ncols + 1); clo = mpq_EGlpNumAllocArray (ncols + 1); cup = mpq_EGlpNumAllocArray (ncols + 1);
+	rrhs = mpq_EGlpNumAllocArray (nrows + 1); rrange = mpq_EGlpNumAllocArray (nrows + 1);
 	for (i = 0; i < ncols; i++)
 	{
 		if (!qsx_next (in) || strcmp (qsx_tok[0], "COL") || qsx_ntok < 5) qsx_die ("COL expected");
-		qsx_parse_q (qsx_tok[2], a); qsx_parse_q (qsx_tok[3], b); qsx_parse_q (qsx_tok[4], c);
+		qsx_parse_q (qsx_tok[2], cobj[i]); qsx_parse_q (qsx_tok[3], clo[i]); qsx_parse_q (qsx_tok[4], cup[i]);
 		if (qsx_ntok > 5 && atoi (qsx_tok[5])) { ints[i] = 1; anyint = 1; }
-		if (strcmp (qsx_tok[1], "-")) dec (qsx_tok[1]);
-		rv = mpq_QSnew_col (p, a, b, c, strcmp (qsx_tok[1], "-") ? qsx_tok[1] : NULL);
-		if (rv) goto FAIL;
+		if (strcmp (qsx_tok[1], "-")) { dec (qsx_tok[1]); cname[i] = strdup (qsx_tok[1]); }
 	}
 	for (i = 0; i < nrows; i++)
 	{
-		int k, *ind;
-		mpq_t *val;
-		char sense;
+		int k;
 		if (!qsx_next (in) || strcmp (qsx_tok[0], "ROW") || qsx_ntok < 6) qsx_die ("ROW expected");
-		sense = qsx_tok[2][0];
-		qsx_parse_q (qsx_tok[3], a); qsx_parse_q (qsx_tok[4], b);
+		rsense[i] = qsx_tok[2][0];
+		qsx_parse_q (qsx_tok[3], rrhs[i]); qsx_parse_q (qsx_tok[4], rrange[i]);
 		k = atoi (qsx_tok[5]);
 		if (qsx_ntok < 6 + 2 * k) qsx_die ("ROW too short");
-		ind = (int *) malloc (sizeof (int) * (k + 1));
-		val = mpq_EGlpNumAllocArray (k + 1);
+		rk[i] = k;
+		rind[i] = (int *) malloc (sizeof (int) * (k + 1));
+		rval[i] = mpq_EGlpNumAllocArray (k + 1);
 		for (j = 0; j < k; j++)
 		{
-			ind[j] = atoi (qsx_tok[6 + 2 * j]);
-			qsx_parse_q (qsx_tok[7 + 2 * j], val[j]);
+			rind[i][j] = atoi (qsx_tok[6 + 2 * j]);
+			qsx_parse_q (qsx_tok[7 + 2 * j], rval[i][j]);
 		}
-		if (strcmp (qsx_tok[1], "-")) dec (qsx_tok[1]);
-		if (sense == 'R')
-			rv = mpq_QSadd_ranged_row (p, k, ind, val, &a, 'R', &b, strcmp (qsx_tok[1], "-") ? qsx_tok[1] : NULL);
-		else
-			rv = mpq_QSadd_row (p, k, ind, val, &a, sense, strcmp (qsx_tok[1], "-") ? qsx_tok[1] : NULL);
+		if (strcmp (qsx_tok[1], "-")) { dec (qsx_tok[1]); rname[i] = strdup (qsx_tok[1]); }
+	}
+	for (i = 0; i < kfirst && !rv; i++) rv = mpq_QSnew_col (p, cobj[i], clo[i], cup[i], cname[i]);
+	for (i = 0; i < nrows && !rv; i++)
+	{
+		int k = 0, *ind = (int *) malloc (sizeof (int) * (rk[i] + 1));
+		mpq_t *val = mpq_EGlpNumAllocArray (rk[i] + 1);
+		for (j = 0; j < rk[i]; j++)
+			if (rind[i][j] < kfirst) { ind[k] = rind[i][j]; mpq_set (val[k], rval[i][j]); k++; }
+		if (rsense[i] == 'R') rv = mpq_QSadd_ranged_row (p, k, ind, val, &rrhs[i], 'R', &rrange[i], rname[i]);
+		else rv = mpq_QSadd_row (p, k, ind, val, &rrhs[i], rsense[i], rname[i]);
 		free (ind);
 		mpq_EGlpNumFreeArray (val);
-		if (rv) goto FAIL;
 	}
-	if (anyint)
+	for (i = kfirst; i < ncols && !rv; i++)
+	{
+		int k = 0, r, *ind = (int *) malloc (sizeof (int) * (nrows + 1));
+		mpq_t *val = mpq_EGlpNumAllocArray (nrows + 1);
+		for (r = 0; r < nrows; r++)
+			for (j = 0; j < rk[r]; j++)
+				if (rind[r][j] == i) { ind[k] = r; mpq_set (val[k], rval[r][j]); k++; break; }
+		rv = mpq_QSadd_col (p, k, ind, val, cobj[i], clo[i], cup[i], cname[i]);
+		free (ind);
+		mpq_EGlpNumFreeArray (val);
+	}
+	if (!rv && anyint)
 	{
 		/* no public setter exists: mark through the (installed-header) struct exactly as the readers do */
 		mpq_ILLlpdata *q = p->qslp;
 		if (!q->intmarker) q->intmarker = (char *) calloc (q->structsize + 1, 1);
 		for (i = 0; i < ncols; i++) q->intmarker[i] = ints[i];
 	}
-	free (ints);
-	mpq_clear (a); mpq_clear (b); mpq_clear (c);
+	for (i = 0; i < ncols; i++) free (cname[i]);
+	for (i = 0; i < nrows; i++) { free (rname[i]); free (rind[i]); mpq_EGlpNumFreeArray (rval[i]); }
+	free (ints); free (cname); free (rname); free (rsense); free (rk); free (rind); free (rval);
+	mpq_EGlpNumFreeArray (cobj); mpq_EGlpNumFreeArray (clo); mpq_EGlpNumFreeArray (cup);
+	mpq_EGlpNumFreeArray (rrhs); mpq_EGlpNumFreeArray (rrange);
+	if (rv) { mpq_QSfree_prob (p); return NULL; }
 	return p;
-FAIL:
-	free (ints);
-	mpq_clear (a); mpq_clear (b); mpq_clear (c);
-	mpq_QSfree_prob (p);
-	return NULL;
 }
 
 /* ---- dump by names ------------------------------------------------------- */
@@ -228,7 +255,10 @@ static int dump_names (FILE * o, mpq_QSdata * p, int sorted)
 	pn = mpq_QSget_probname (p);
 	fprintf (o, "P %s %d %d ", os == QS_MAX ? "MAX" : "MIN", ncols, nrows);
 	if (pn) { put_enc (o, pn, -1); mpq_QSfree (pn); } else fputc ('-', o);
-	fputc ('\n', o);
+	/* what the writers use besides the query view: the stored objective name and whether intmarker is allocated */
+	fputc (' ', o);
+	if (p->qslp->objname) put_enc (o, p->qslp->objname, -1); else fputc ('-', o);
+	fprintf (o, " %d\n", p->qslp->intmarker ? 1 : 0);
 	for (j = 0; j < ncols; j++)
 	{
 		int c = co[j].idx;
@@ -267,6 +297,71 @@ DONE:
 	if (rowbeg) mpq_QSfree (rowbeg);
 	if (rowind) mpq_QSfree (rowind);
 	if (sense) mpq_QSfree (sense);
+	return rv;
+}
+
+/* ---- dump by columns (storage order of the matrix, which is the order the MPS writer walks) ------------------------ */
+static int dump_columns (FILE * o, mpq_QSdata * p)
+{
+	int ncols = mpq_QSget_colcount (p), nrows = mpq_QSget_rowcount (p);
+	int j, k, rv = 0, os = 0;
+	int *colcnt = 0, *colbeg = 0, *colind = 0, *intf = 0;
+	mpq_t *colval = 0, *obj = 0, *lo = 0, *up = 0, *rhs = 0, *range = 0;
+	char **cn = 0, **rn = 0, *sense = 0, *pn;
+	rv = mpq_QSget_objsense (p, &os);
+	if (rv) return rv;
+	intf = (int *) calloc (ncols + 1, sizeof (int));
+	rn = (char **) calloc (nrows + 1, sizeof (char *));
+	sense = (char *) calloc (nrows + 1, 1);
+	rhs = mpq_EGlpNumAllocArray (nrows + 1);
+	range = mpq_EGlpNumAllocArray (nrows + 1);
+	rv = mpq_QSget_columns (p, &colcnt, &colbeg, &colind, &colval, &obj, &lo, &up, &cn);
+	if (!rv && ncols) rv = mpq_QSget_intflags (p, intf);
+	if (!rv && nrows) rv = mpq_QSget_rownames (p, rn);
+	if (!rv && nrows) rv = mpq_QSget_senses (p, sense);
+	if (!rv && nrows) rv = mpq_QSget_rhs (p, rhs);
+	if (rv) goto DONE;
+	for (k = 0; k < nrows; k++)
+	{
+		if (p->qslp->rangeval) mpq_set (range[k], p->qslp->rangeval[k]); else mpq_set_ui (range[k], 0UL, 1UL);
+	}
+	pn = mpq_QSget_probname (p);
+	fprintf (o, "PC %s %d %d ", os == QS_MAX ? "MAX" : "MIN", ncols, nrows);
+	if (pn) { put_enc (o, pn, -1); mpq_QSfree (pn); } else fputc ('-', o);
+	fputc (' ', o);
+	if (p->qslp->objname) put_enc (o, p->qslp->objname, -1); else fputc ('-', o);
+	fprintf (o, " %d %d\n", p->qslp->intmarker ? 1 : 0, p->qslp->rangeval ? 1 : 0);
+	for (j = 0; j < ncols; j++)
+	{
+		fputs ("CC ", o); put_enc (o, cn[j] ? cn[j] : "", -1); fputc (' ', o);
+		qsx_print_q (o, obj[j]); fputc (' ', o);
+		qsx_print_q (o, lo[j]); fputc (' ', o);
+		qsx_print_q (o, up[j]);
+		fprintf (o, " %d %d", intf[j] ? 1 : 0, colcnt[j]);
+		for (k = colbeg[j]; k < colbeg[j] + colcnt[j]; k++)
+		{
+			int r = colind[k];
+			fputc (' ', o); put_enc (o, (r >= 0 && r < nrows && rn[r]) ? rn[r] : "?", -1); fputc (' ', o);
+			qsx_print_q (o, colval[k]);
+		}
+		fputc ('\n', o);
+	}
+	for (k = 0; k < nrows; k++)
+	{
+		fputs ("RR ", o); put_enc (o, rn[k] ? rn[k] : "", -1);
+		fprintf (o, " %c ", sense[k]);
+		qsx_print_q (o, rhs[k]); fputc (' ', o);
+		qsx_print_q (o, range[k]); fputc ('\n', o);
+	}
+DONE:
+	for (k = 0; k < nrows; k++) if (rn && rn[k]) mpq_QSfree (rn[k]);
+	for (j = 0; j < ncols; j++) if (cn && cn[j]) mpq_QSfree (cn[j]);
+	free (rn); if (cn) mpq_QSfree (cn); free (intf); free (sense);
+	mpq_EGlpNumFreeArray (colval); mpq_EGlpNumFreeArray (obj); mpq_EGlpNumFreeArray (lo); mpq_EGlpNumFreeArray (up);
+	mpq_EGlpNumFreeArray (rhs); mpq_EGlpNumFreeArray (range);
+	if (colcnt) mpq_QSfree (colcnt);
+	if (colbeg) mpq_QSfree (colbeg);
+	if (colind) mpq_QSfree (colind);
 	return rv;
 }
 
@@ -487,7 +582,15 @@ int main (int argc, char **argv)
 		{
 			int h = hidx (qsx_tok[1]);
 			if (H[h]) mpq_QSfree_prob (H[h]);
-			H[h] = load_block (in);
+			H[h] = load_block (in, -1);
+			printf ("LOAD %s\n", H[h] ? "OK" : "ERR");
+		}
+		else if (!strcmp (op, "LOADMIX"))
+		{
+			/* LOADMIX <h> <kfirst>: as LOAD, but the rows are added after the first kfirst columns */
+			int h = hidx (qsx_tok[1]);
+			if (H[h]) mpq_QSfree_prob (H[h]);
+			H[h] = load_block (in, qsx_ntok > 2 ? atoi (qsx_tok[2]) : 0);
 			printf ("LOAD %s\n", H[h] ? "OK" : "ERR");
 		}
 		else if (!strcmp (op, "PUT"))
@@ -567,6 +670,10 @@ int main (int argc, char **argv)
 			else if (!strcmp (op, "DUMP") || !strcmp (op, "DUMPO"))
 			{
 				if (dump_names (stdout, P, op[4] != 'O')) printf ("P ERR\n");
+			}
+			else if (!strcmp (op, "DUMPC"))
+			{
+				if (dump_columns (stdout, P)) printf ("PC ERR\n");
 			}
 			else if (!strcmp (op, "TRYBASIS"))
 			{
